@@ -193,6 +193,21 @@ theorem gen_fitness_weighted (a : Attr) (st : St) :
 theorem gen_reads_stored :
     Gen.Composite.uniformReadsStored = true ∧ Gen.Composite.weightedReadsStored = true := ⟨rfl, rfl⟩
 
+/-- **end to end, about the text of the source**: what the demand setters of `uniform.py` and `weighted.py`
+hand to the children (as regenerated on this run) sums to the written demand and, for non-negative weights and
+demand, keeps every share between 0 and the demand -/
+theorem gen_conservation (a : Attr) (cs : List Child) (D : Rat) (hne : cs ≠ []) :
+    (Gen.Composite.uniformShares cs D).sum = D ∧ (Gen.Composite.weightedShares a cs D).sum = D := by
+  rw [gen_shares_uniform, gen_shares_weighted]
+  exact ⟨shares_sum .uniform cs D hne, shares_sum (.weighted a) cs D hne⟩
+
+theorem gen_share_bounds (a : Attr) (cs : List Child) (D : Rat) (hD : 0 ≤ D) (hw : ∀ c ∈ cs, 0 ≤ c.get a) :
+    (∀ s ∈ Gen.Composite.uniformShares cs D, 0 ≤ s ∧ s ≤ D) ∧ (∀ s ∈ Gen.Composite.weightedShares a cs D, 0 ≤ s ∧ s ≤ D) := by
+  rw [gen_shares_uniform, gen_shares_weighted]
+  refine ⟨share_bounds .uniform cs D hD (fun b hb => by cases hb), share_bounds (.weighted a) cs D hD ?_⟩
+  intro b hb c hc
+  cases hb
+  exact hw c hc
 /-! ### non-vacuity -/
 
 def ex : St := init [⟨3, 1/2, 1, 0⟩, ⟨6, 1/4, 1/2, 0⟩, ⟨0, 1, 1, 5⟩]
